@@ -10,7 +10,9 @@ import (
 	"fmt"
 	"os"
 	"path/filepath"
+	"sort"
 	"strings"
+	"sync"
 	"time"
 )
 
@@ -45,79 +47,91 @@ func runSelftest(id, repo string, verbose bool) (int, []string) {
 		return 0, []string{err.Error()}
 	}
 	var bad []string
+	var mu sync.Mutex
+	addBad := func(s string) { mu.Lock(); bad = append(bad, s); mu.Unlock() }
 	ms := loadMutants(id)
+	var wg sync.WaitGroup
+	sem := make(chan struct{}, 3)
 	for _, m := range ms {
-		file := filepath.Join(repo, m.File)
-		src, err := os.ReadFile(file)
-		if err != nil {
-			bad = append(bad, m.Name+": "+err.Error())
-			continue
-		}
-		if strings.Count(string(src), m.Old) != 1 {
-			bad = append(bad, fmt.Sprintf("%s: pattern occurs %d times in %s (must be exactly once)", m.Name, strings.Count(string(src), m.Old), m.File))
-			continue
-		}
-		mut := strings.Replace(string(src), m.Old, m.New, 1) + m.Append
-		res := runProperty(ps, repo, map[string][]byte{file: []byte(mut)}, RunOpts{Timeout: 30 * time.Second, Agree: 1})
-		var failed []string
-		if res.LoadError != "" {
-			bad = append(bad, m.Name+": mutant does not load: "+firstLines(res.LoadError, 3))
-			continue
-		}
-		for _, o := range res.Counted {
-			if !o.ok() {
-				failed = append(failed, o.Name)
+		wg.Add(1)
+		go func(m Mutant) {
+			defer wg.Done()
+			sem <- struct{}{}
+			defer func() { <-sem }()
+			file := filepath.Join(repo, m.File)
+			src, err := os.ReadFile(file)
+			if err != nil {
+				addBad(m.Name + ": " + err.Error())
+				return
 			}
-		}
-		for _, o := range res.Covers {
-			if !o.ok() {
-				failed = append(failed, o.Name) // a vacuous function is reported by the check as well
+			if strings.Count(string(src), m.Old) != 1 {
+				addBad(fmt.Sprintf("%s: pattern occurs %d times in %s (must be exactly once)", m.Name, strings.Count(string(src), m.Old), m.File))
+				return
 			}
-		}
-		for _, mm := range res.Missing {
-			failed = append(failed, "bind/function "+mm)
-		}
-		if res.Workdir != "" {
-			os.RemoveAll(res.Workdir)
-		}
-		// failures already present on the unchanged tree (known findings) do not count
-		known := loadKnown()
-		var fresh []string
-		for _, f := range failed {
-			isKnown := false
-			for _, k := range known {
-				if k.Property == id && k.Status == "known" && oblBase(k.Obligation) == oblBase(f) {
-					isKnown = true
+			mut := strings.Replace(string(src), m.Old, m.New, 1) + m.Append
+			res := runProperty(ps, repo, map[string][]byte{file: []byte(mut)}, RunOpts{Timeout: 20 * time.Second, Agree: 1, NoRetry: !m.Control, NoRelaxed: true})
+			var failed []string
+			if res.LoadError != "" {
+				addBad(m.Name + ": mutant does not load: " + firstLines(res.LoadError, 3))
+				return
+			}
+			for _, o := range res.Counted {
+				if !o.ok() {
+					failed = append(failed, o.Name)
 				}
 			}
-			if !isKnown {
-				fresh = append(fresh, f)
-			}
-		}
-		if m.Control {
-			if len(fresh) > 0 {
-				bad = append(bad, fmt.Sprintf("%s: negative control raised %v", m.Name, fresh))
-			}
-		} else {
-			hit := false
-			for _, f := range fresh {
-				if len(m.Expect) == 0 {
-					hit = true
+			for _, o := range res.Covers {
+				if !o.ok() {
+					failed = append(failed, o.Name) // a vacuous function is reported by the check as well
 				}
-				for _, ex := range m.Expect {
-					if strings.Contains(f, ex) {
-						hit = true
+			}
+			for _, mm := range res.Missing {
+				failed = append(failed, "bind/function "+mm)
+			}
+			if res.Workdir != "" {
+				os.RemoveAll(res.Workdir)
+			}
+			// failures already present on the unchanged tree (known findings) do not count
+			known := loadKnown()
+			var fresh []string
+			for _, f := range failed {
+				isKnown := false
+				for _, k := range known {
+					if k.Property == id && k.Status == "known" && oblBase(k.Obligation) == oblBase(f) {
+						isKnown = true
 					}
 				}
+				if !isKnown {
+					fresh = append(fresh, f)
+				}
 			}
-			if !hit {
-				bad = append(bad, fmt.Sprintf("%s: expected a failing obligation matching %v, failing: %v", m.Name, m.Expect, fresh))
+			if m.Control {
+				if len(fresh) > 0 {
+					addBad(fmt.Sprintf("%s: negative control raised %v", m.Name, fresh))
+				}
+			} else {
+				hit := false
+				for _, f := range fresh {
+					if len(m.Expect) == 0 {
+						hit = true
+					}
+					for _, ex := range m.Expect {
+						if strings.Contains(f, ex) {
+							hit = true
+						}
+					}
+				}
+				if !hit {
+					addBad(fmt.Sprintf("%s: expected a failing obligation matching %v, failing: %v", m.Name, m.Expect, fresh))
+				}
 			}
-		}
-		if verbose {
-			fmt.Printf("  mutant %-40s control=%v failing=%d %v\n", m.Name, m.Control, len(fresh), firstN(fresh, 3))
-		}
+			if verbose {
+				fmt.Printf("  mutant %-40s control=%v failing=%d %v\n", m.Name, m.Control, len(fresh), firstN(fresh, 3))
+			}
+		}(m)
 	}
+	wg.Wait()
+	sort.Strings(bad)
 	return len(ms), bad
 }
 
